@@ -47,6 +47,34 @@ def runWall {α : Type} (o : Ops α) (interval : α) : α → List α → List B
     let rest := runWall o interval h.2 r
     (h.1 :: rest.1, rest.2)
 
+/-! ### cadence state across a restart
+  `simulationarchive_auto_interval`, `simulationarchive_next`, `simulationarchive_auto_step`, `simulationarchive_next_step`
+  are fields of every snapshot (the snapshot is written AFTER the heartbeat advanced `next`, simulationarchive.c:429-431).
+  After a restart the user calls `reb_simulation_save_to_file_interval/step/walltime` again (simulationarchive.c:641-668). -/
+
+/-- `reb_simulation_save_to_file_interval`: `if (auto_interval != interval){ auto_interval = interval; next = t; }`
+    → (interval, next).  `ne` is C's `!=` on the number type. -/
+def arm {α : Type} (ne : α → α → Bool) (cur next interval t : α) : α × α :=
+  if ne cur interval then (interval, t) else (cur, next)
+
+/-- `reb_simulation_save_to_file_step`: `if (auto_step != step){ auto_step = step; next_step = steps_done; }` -/
+def armStep (cur next step stepsDone : Nat) : Nat × Nat :=
+  if cur ≠ step then (step, stepsDone) else (cur, next)
+
+/-- `reb_simulation_save_to_file_walltime`: re-armed unconditionally: `auto_walltime = walltime; next = r->walltime` -/
+def armWall {α : Type} (interval wall : α) : α × α := (interval, wall)
+
+/-- restart from the snapshot written at boundary `tk` (persisted cadence state `pInt`, `pNext`), the user re-arms
+    with `interval`, `reb_simulation_integrate` runs the heartbeat at `tk` (before the first step) and at every later
+    boundary -/
+def restart {α : Type} (o : Ops α) (ne : α → α → Bool) (sign pInt pNext interval tk : α) (later : List α) : List Bool × α :=
+  let a := arm ne pInt pNext interval tk
+  run o sign a.1 a.2 (tk :: later)
+
+def restartStep (pStep pNext step sk : Nat) (later : List Nat) : List Bool × Nat :=
+  let a := armStep pStep pNext step sk
+  runStep a.1 a.2 (sk :: later)
+
 def intOps : Ops Int := ⟨fun a b => decide (a ≤ b), (· + ·), (· * ·)⟩
 def floatOps : Ops Float := ⟨fun a b => a ≤ b, (· + ·), (· * ·)⟩
 
